@@ -470,7 +470,7 @@ func (p *Program) assumeAvoid(g *IG, assume map[*types.Var]bool) map[edge]bool {
 // on every terminating non-restart path, and is it reachable when restarting?
 func (lc *lifecycle) effectOnPaths(name string) (onTermination, onRestart bool) {
 	p := lcProgram(lc)
-	g := p.ig(lc.Cleanup)
+	g := p.igx(lc.Cleanup) // an effect moved into a single-use helper of the cleanup step is still the step's own
 	eff := nodesWhere(g, func(in ssa.Instruction) bool {
 		c := callOf(in)
 		if c == nil {
